@@ -19,6 +19,9 @@ package main
 //                 but never delivered;  Maintenance: (counters)
 //  which=4  the real Antispammer with exceptions as concrete matchrule rule sets: see rules.go
 //  which=5  as which=3 with CRI rows that carry their own time / stream and per-stream saved offsets: see critimes.go
+//  which=6  the real pipeline with its other options (PassEvent of the input, DisableStreams, source_name_meta_field, meta,
+//           postgres decoder, decoder "auto", pool type, spread), 7 its own maintenance ticker, 8 the int32 model on the
+//           which=1 cases, 9 first events of a source from several goroutines: see cov.go
 
 import (
 	"bytes"
@@ -136,15 +139,13 @@ func c20Antispam(cs hx.Sx) hx.Sx {
 		})
 	}
 	exc.Prepare()
-	// rule j: do_if "contains R<j>;" — odd j on source_name, even j on event
+	// rule j: do_if "contains R<j>;" — j = 0 on event, 1 on source_name, 2 on meta.tag; j >= 3: a field the antispam data
+	// does not have (c20DeadFields: Get returns nil, the rule can never match although its token is planted everywhere)
 	var rules antispam.Rules
 	if mode == 1 {
 		rules = antispam.Rules{}
 		for j, th := range rthr {
-			field := "event"
-			if j%2 == 1 {
-				field = "source_name"
-			}
+			field := c20RuleField(j)
 			ck, err := doif.NewFromMap(map[string]any{"op": "contains", "field": field, "values": []any{c20RuleToken(j)}})
 			if err != nil {
 				panic(err)
@@ -178,6 +179,7 @@ func c20Antispam(cs hx.Sx) hx.Sx {
 				}
 			}
 			out = append(out, hx.L(cnt...))
+			c20CheckDump(a.Dump(), T, nsrc, func(i int) string { return strconv.Itoa(i) }, a.VerifC20Counter)
 			continue
 		}
 		id := int(hx.Int(o[1]))
@@ -185,6 +187,7 @@ func c20Antispam(cs hx.Sx) hx.Sx {
 		t := hx.Int(o[3])
 		name := "src" + strconv.Itoa(id) + "|"
 		ev := `{"m":"`
+		tag := "t|"
 		for i, b := range hx.Items(o[4]) {
 			if hx.Truth(b) {
 				if i%2 == 1 {
@@ -194,16 +197,32 @@ func c20Antispam(cs hx.Sx) hx.Sx {
 				}
 			}
 		}
+		unrealisable := false
 		for j, b := range hx.Items(o[5]) {
-			if hx.Truth(b) {
-				if j%2 == 1 {
-					name += c20RuleToken(j)
-				} else {
-					ev += c20RuleToken(j)
-				}
+			switch {
+			case j >= 3: // a dead field: its token is planted in all three carriers and must still not match
+				name += c20RuleToken(j)
+				ev += c20RuleToken(j)
+				tag += c20RuleToken(j)
+				unrealisable = unrealisable || hx.Truth(b)
+			case !hx.Truth(b):
+			case j == 0:
+				ev += c20RuleToken(j)
+			case j == 1:
+				name += c20RuleToken(j)
+			default:
+				tag += c20RuleToken(j)
 			}
 		}
 		ev += `"}`
+		if unrealisable {
+			out = append(out, hx.S("case asks a rule on a missing field to match"))
+			continue
+		}
+		var meta map[string]string
+		if len(hx.Items(o[5])) > 2 {
+			meta = map[string]string{"tag": tag, "other": c20RuleToken(2)}
+		}
 		if c20W != nil {
 			for i, b := range hx.Items(o[4]) {
 				if i < len(exc) {
@@ -217,7 +236,7 @@ func c20Antispam(cs hx.Sx) hx.Sx {
 			}
 		}
 		var spam bool
-		if msg := hx.Catch(func() { spam = a.IsSpam(strconv.Itoa(id), name, isNew, []byte(ev), time.Unix(0, t), nil) }); msg != "" {
+		if msg := hx.Catch(func() { spam = a.IsSpam(strconv.Itoa(id), name, isNew, []byte(ev), time.Unix(0, t), meta) }); msg != "" {
 			out = append(out, hx.S(msg))
 			continue
 		}
@@ -368,6 +387,14 @@ func c20Exec(which int, cs hx.Sx) hx.Sx {
 		return c20Pipeline(cs)
 	case 4:
 		return c20RulesExec(cs)
+	case 6:
+		return c20PipeOpts(cs)
+	case 7:
+		return c20Tick(cs)
+	case 8:
+		return c20Antispam(cs)
+	case 9:
+		return c20Concurrent(cs)
 	}
 	panic("c20: unknown which")
 }
@@ -769,6 +796,7 @@ func c20Gen(c *hmain.Ctx) {
 	// new streams go last so that the random streams above keep their cases for a given seed
 	c20GenRules(c)    // 10..14: matchrule shapes, threshold width
 	c20GenCriTimes(c) // 15: the real pipeline, CRI rows with their own times / streams / saved offsets
+	c20GenCov(c)      // 16..: what the coverage report showed no stream reached (cov.go)
 }
 
 func main() {
